@@ -419,6 +419,8 @@ func applyBaseline(prog *ssa.Program, all map[*ssa.Function]bool) []string {
 			break
 		}
 	}
+	resultAlias = map[*ssa.Function][]int{}
+	notes = append(notes, computeResultAliases(&bl, all)...)
 	return notes
 }
 
@@ -618,6 +620,123 @@ var liftRecv = map[*ssa.Function]string{}
 // ---------------------------------------------------------------------------
 
 var baselineWrappers = map[string][]baseFn{}
+
+// resultAlias: a baseline function that now returns ADDITIONAL values (`error` -> `(int, error)`):
+// per current result index the baseline index (-1: the baseline's single result, rendered as the
+// bare call; -2: a new result).  Established by matching result types in order.
+var resultAlias = map[*ssa.Function][]int{}
+
+// sigResults: result types of a rendered signature "func(a T) (X, Y)".
+func sigResults(sig string) []string {
+	depth, i := 0, strings.Index(sig, "(")
+	if i < 0 {
+		return nil
+	}
+	j := i
+	for ; j < len(sig); j++ {
+		if sig[j] == '(' {
+			depth++
+		} else if sig[j] == ')' {
+			depth--
+			if depth == 0 {
+				break
+			}
+		}
+	}
+	rest := strings.TrimSpace(sig[j+1:])
+	if rest == "" {
+		return nil
+	}
+	if !strings.HasPrefix(rest, "(") {
+		return []string{rest}
+	}
+	rest = strings.TrimSuffix(strings.TrimPrefix(rest, "("), ")")
+	var out []string
+	depth = 0
+	cur := ""
+	for _, ch := range rest {
+		switch ch {
+		case '(', '[', '{':
+			depth++
+		case ')', ']', '}':
+			depth--
+		}
+		if ch == ',' && depth == 0 {
+			out = append(out, strings.TrimSpace(cur))
+			cur = ""
+			continue
+		}
+		cur += string(ch)
+	}
+	if strings.TrimSpace(cur) != "" {
+		out = append(out, strings.TrimSpace(cur))
+	}
+	// named results "n int": keep the type
+	for i, o := range out {
+		if k := strings.LastIndex(o, " "); k >= 0 && !strings.HasPrefix(o, "func") && !strings.HasPrefix(o, "chan") && !strings.HasPrefix(o, "map") {
+			out[i] = o[k+1:]
+		}
+	}
+	return out
+}
+
+func computeResultAliases(bl *baseline, all map[*ssa.Function]bool) []string {
+	var notes []string
+	byName := map[string]baseFn{}
+	for _, b := range bl.Funcs {
+		byName[b.Name] = b
+	}
+	for _, f := range topLevelFns(all) {
+		b, ok := byName[aliasedFnName(f)]
+		if !ok {
+			continue
+		}
+		old := sigResults(b.Sig)
+		res := f.Signature.Results()
+		if len(old) == 0 || res.Len() <= len(old) {
+			continue
+		}
+		m := make([]int, res.Len())
+		k := 0
+		for i := 0; i < res.Len(); i++ {
+			t := types.TypeString(res.At(i).Type(), qual)
+			if k < len(old) && t == old[k] && (res.Len()-i) >= (len(old)-k) && !laterMatch(res, i, old, k) {
+				m[i] = k
+				k++
+			} else {
+				m[i] = -2
+			}
+		}
+		if k != len(old) {
+			continue
+		}
+		if len(old) == 1 {
+			for i := range m {
+				if m[i] == 0 {
+					m[i] = -1
+				}
+			}
+		}
+		resultAlias[f] = m
+		notes = append(notes, fmt.Sprintf("function %s returns additional values; its baseline results are addressed as before", aliasedFnName(f)))
+	}
+	return notes
+}
+
+// laterMatch: prefer the LAST position that still lets the remaining baseline results match
+// (an added leading value of the same type as a baseline result is the new one only when
+// ambiguous; `error` is conventionally last).
+func laterMatch(res *types.Tuple, i int, old []string, k int) bool {
+	if old[k] != "error" {
+		return false
+	}
+	for j := i + 1; j < res.Len(); j++ {
+		if types.TypeString(res.At(j).Type(), qual) == "error" && res.Len()-j >= len(old)-k {
+			return true
+		}
+	}
+	return false
+}
 
 func trivialWrapper(f *ssa.Function) (string, []string, bool) {
 	if len(f.Blocks) != 1 || f.Signature.Variadic() {
